@@ -8,6 +8,8 @@ package rlp
 
 import (
 	"bytes"
+	"math/big"
+	"reflect"
 
 	"github.com/youchainhq/go-youchain/zzverif"
 )
@@ -233,6 +235,83 @@ func zzC14Stream(op int, buf []byte) {
 				total += len(e)
 				zzverif.Assert(total <= len(content), "no element extends beyond its enclosing list")
 			}
+		}
+	}
+	zzverif.Reach("end")
+}
+
+// ---- the reflect-facing leaf decoders and writers (on a minimal reflect model) ----
+
+// zzC14Enc runs a leaf writer and returns its bytes (no list heads are involved).
+func zzC14Enc(f func(w *encbuf) error) []byte {
+	w := &encbuf{sizebuf: make([]byte, 9)}
+	if err := f(w); err != nil {
+		return nil
+	}
+	return w.str
+}
+
+// zzH_C14_bigint: decodeBigInt accepts only the canonical encoding of a big integer:
+// re-encoding the accepted value with the real writer reproduces the consumed bytes.
+//
+//verif:mode bv W=264
+func zzH_C14_bigint() {
+	buf := zzverif.Bytes("b", zzverif.Choose("len", zzverif.Bound("Nbig", 6, 12)+1))
+	s := NewStream(bytes.NewReader(buf), 0)
+	var x *big.Int
+	err := decodeBigInt(s, reflect.ValueOf(&x).Elem())
+	if err != nil {
+		zzverif.Reach("bigint-rejected")
+		return
+	}
+	zzverif.Reach("bigint-accepted")
+	enc := zzC14Enc(func(w *encbuf) error { return writeBigInt(x, w) })
+	zzverif.Assert(enc != nil && len(enc) <= len(buf) && bytes.Equal(enc, buf[:len(enc)]), "an accepted big integer re-encodes to exactly the consumed bytes (one encoding per value)")
+	_, _, rest, serr := Split(buf)
+	zzverif.Assert(serr == nil && len(buf)-len(rest) == len(enc), "decodeBigInt consumed exactly one value")
+	zzverif.Reach("end")
+}
+
+// zzH_C14_uintleaf: decodeUint / writeUint on uint64 fields.
+func zzH_C14_uintleaf() {
+	buf := zzverif.Bytes("b", zzverif.Choose("len", zzverif.Bound("Nuint", 10, 10)+1))
+	s := NewStream(bytes.NewReader(buf), 0)
+	var u uint64
+	err := decodeUint(s, reflect.ValueOf(&u).Elem())
+	if err != nil {
+		zzverif.Reach("uint-rejected")
+		return
+	}
+	zzverif.Reach("uint-accepted")
+	enc := zzC14Enc(func(w *encbuf) error { return writeUint(reflect.ValueOf(&u).Elem(), w) })
+	zzverif.Assert(len(enc) <= len(buf) && bytes.Equal(enc, buf[:len(enc)]), "an accepted uint64 re-encodes to exactly the consumed bytes")
+	zzverif.Reach("end")
+}
+
+// zzH_C14_byteslice: decodeByteSlice / decodeString / decodeBool and their writers.
+func zzH_C14_byteslice() {
+	buf := zzverif.Bytes("b", zzverif.Choose("len", zzverif.Bound("Nbytes", 6, 10)+1))
+	switch zzverif.Choose("leaf", 3) {
+	case 0:
+		var bs []byte
+		if decodeByteSlice(NewStream(bytes.NewReader(buf), 0), reflect.ValueOf(&bs).Elem()) == nil {
+			zzverif.Reach("bytes-accepted")
+			enc := zzC14Enc(func(w *encbuf) error { return writeBytes(reflect.ValueOf(&bs).Elem(), w) })
+			zzverif.Assert(len(enc) <= len(buf) && bytes.Equal(enc, buf[:len(enc)]), "an accepted byte string re-encodes to exactly the consumed bytes")
+		}
+	case 1:
+		var str string
+		if decodeString(NewStream(bytes.NewReader(buf), 0), reflect.ValueOf(&str).Elem()) == nil {
+			zzverif.Reach("string-accepted")
+			enc := zzC14Enc(func(w *encbuf) error { return writeString(reflect.ValueOf(&str).Elem(), w) })
+			zzverif.Assert(len(enc) <= len(buf) && bytes.Equal(enc, buf[:len(enc)]), "an accepted string re-encodes to exactly the consumed bytes")
+		}
+	case 2:
+		var b bool
+		if decodeBool(NewStream(bytes.NewReader(buf), 0), reflect.ValueOf(&b).Elem()) == nil {
+			zzverif.Reach("bool-accepted")
+			enc := zzC14Enc(func(w *encbuf) error { return writeBool(reflect.ValueOf(&b).Elem(), w) })
+			zzverif.Assert(len(enc) == 1 && enc[0] == buf[0], "an accepted bool re-encodes to exactly the consumed byte")
 		}
 	}
 	zzverif.Reach("end")
